@@ -1,7 +1,7 @@
 META = dict(
     engine='cosched+seqx',
     technique='stateless model checking: preemption-bounded exhaustive schedule enumeration (CHESS) of the real parsec_hash_table.c with forced resizes, brute-force linearizability against a sequential map; plus BFS over all sequential operation histories against a reference map',
-    level_text='E1: every schedule with <= b preemptions (b=2 quick, 3 thorough) of ten 2-3 thread scripts (insert/find/remove/find-or-insert under lock_bucket) over the real table with nb_bits=1, max_collisions_hint=1 and colliding key hashes, so that resizes and migrations out of old tables happen inside the explored window; each history is checked for linearizability against a map with unique keys, and at quiescence for_all visits each stored element once, no table was unlinked while non-empty, every lock is free. E2: all sequential histories up to depth 6 (quick) / closure (thorough) over 5 keys with hints 1 and 2, reference map + structural invariants after every operation.',
+    level_text='E1: every schedule with <= b preemptions (quick: b=2 for four 2-thread scripts, b=1 for the six larger ones; thorough: b=3 for the 2-thread, b=2 for the 3-thread scripts) of ten 2-3 thread scripts (insert/find/remove/find-or-insert under lock_bucket) over the real table with nb_bits=1, max_collisions_hint=1 and colliding key hashes, so that resizes and migrations out of old tables happen inside the explored window; each history is checked for linearizability against a map with unique keys, and at quiescence for_all visits each stored element once, no table was unlinked while non-empty, every lock is free. E2: all sequential histories up to depth 6 (quick) / closure (thorough) over 5 keys with hints 1 and 2, reference map + structural invariants after every operation.',
     level_note='Sequential consistency at instrumented accesses (gcc -fsanitize=thread instrumentation + own runtime); 2-3 threads, <= 2 operations per thread; the property text speaks of 1..16 threads: only 2-3 are explored, exhaustively within the preemption bound.',
 )
 RULE = ("cosched: every schedule of each 2-3 thread script over the real hash table with at most b preemptions "
@@ -23,15 +23,30 @@ def build_seq(ctx):
     return ctx.compile('hk-shm', 'ht_seq', ['ht_seq.c'], instr=False)
 
 
+TWO = ['resize_vs_find_remove', 'resize_vs_insert_find', 'migrate_vs_remove_old', 'two_old_tables_emptied']
+TWO_BIG = ['double_overflow', 'find_or_insert_same_key']
+THREE = ['migrate_migrate_remove', 'find_or_insert_vs_remove', 'walk_old_tables_during_unlink', 'design_3threads']
+
+
+def conc(ctx, exe, names, bound, deadline, label):
+    import os
+    from vlib import NJOBS, OUT
+    env = dict(os.environ); env['C32_SET'] = ','.join(names)
+    args = ['--bound', str(bound), '--jobs', str(NJOBS), '--outdir', OUT, '--deadline', str(int(deadline))]
+    return ctx.run_engine(exe, args, label=label, timeout=deadline + 600, env=env)
+
+
 def check(ctx):
     quick = ctx.tier == 'quick'
     seq = build_seq(ctx)
-    ctx.run_engine(seq, ['--outdir', '/verif/out', '--deadline', '20' if quick else '240'] + ([] if quick else ['--thorough']), label='ht_seq', timeout=900)
+    ctx.run_engine(seq, ['--outdir', '/verif/out', '--deadline', '20' if quick else '300'] + ([] if quick else ['--thorough']), label='ht_seq', timeout=900)
     exe = build_conc(ctx)
     if quick:
-        ctx.run_cosched(exe, 2, deadline=70)
+        conc(ctx, exe, TWO, 2, 40, 'conc2_b2')
+        conc(ctx, exe, TWO_BIG + THREE, 1, 20, 'conc3_b1')
     else:
-        ctx.run_cosched(exe, 3, deadline=900)
+        conc(ctx, exe, TWO + TWO_BIG, 3, 500, 'conc2_b3')
+        conc(ctx, exe, THREE, 2, 500, 'conc3_b2')
     return ctx.finish(RULE, ASSUME)
 
 
